@@ -135,12 +135,12 @@ func (tl *TokenLimiter) consumeRates(req *http.Request, source string, amount in
 		bucketSet.Update(effectiveRates)
 	} else {
 		bucketSet = NewTokenBucketSet(effectiveRates)
-		// We set ttl as 10 times rate period. E.g. if rate is 100 requests/second per client ip
-		// the counters for this ip will expire after 10 seconds of inactivity
-		err := tl.bucketSets.Set(source, bucketSet, int(bucketSet.maxPeriod/clock.Second)*10+1)
-		if err != nil {
-			return err
-		}
+	}
+	// We set ttl as 10 times rate period. E.g. if rate is 100 requests/second per client ip
+	// the counters for this ip will expire after 10 seconds of inactivity
+	err := tl.bucketSets.Set(source, bucketSet, int(bucketSet.maxPeriod/clock.Second)*10+1)
+	if err != nil {
+		return err
 	}
 	delay, err := bucketSet.Consume(amount)
 	if err != nil {
